@@ -42,12 +42,14 @@ vh::Outcome run_c14(const vh::Case& c) {
                 default: { auto h = L.lock_write(); auto it = h->begin(); ++it; h->erase(it); break; }
             }
         };
-        auto rcu_read = [&](auto& L) {
+        // (the handle stays in this frame while `hold` runs: returning a named handle would rely on NRVO, and rcu_guarded's handles are
+        // implicitly copyable - a copy of a handle that was already used releases the same registration twice; clang does not elide here)
+        auto rcu_read = [&](auto& L, auto&& hold) {
             auto h = L.lock_read();
             int n = 0;
             for (auto it = h->begin(); it != h->end(); ++it) { vrt::check_live_addr(&*it, "iterator dereference"); (void)it->read(); ++n; }
             if (n < 2) vrt::fail("traversal-short", "a solo traversal saw fewer elements than are stably in the list");
-            return h;     // the caller keeps the handle (guaranteed copy elision)
+            hold();
         };
         bool writer_done = false;
         bool release_readers = false;
@@ -110,8 +112,8 @@ vh::Outcome run_c14(const vh::Case& c) {
                     (void)s->read();
                     acquired();
                 } else {
-                    if (stateful_alloc) { auto h = rcu_read(rls); acquired(); }        // release (which may reclaim) also happens while the writer may still be frozen
-                    else { auto h = rcu_read(rl); acquired(); }
+                    if (stateful_alloc) rcu_read(rls, acquired);        // release (which may reclaim) also happens while the writer may still be frozen
+                    else rcu_read(rl, acquired);
                 }
                 (void)r;
             }));
